@@ -22,8 +22,9 @@ type WorkerPool struct {
 	// Queue is the queue of tasks that are waiting to be executed.
 	Queue *syncutils.Stack[*Task]
 
-	// ShutdownComplete is a WaitGroup that is used to wait for the WorkerPool to shutdown.
-	ShutdownComplete sync.WaitGroup
+	// ShutdownComplete is used to wait for the WorkerPool to shutdown (it can be waited for while the WorkerPool is
+	// restarted, which a sync.WaitGroup does not allow).
+	ShutdownComplete ShutdownWaitGroup
 
 	// isRunning indicates if the WorkerPool is running. It is only written while holding the mutex, but it can be read
 	// without it: the dispatcher and the tasks of a WorkerPool that is shutting down have to be able to call IsRunning
